@@ -10,6 +10,7 @@ func init() {
 	vHarnesses["C04_step"] = H_C04_step
 	vHarnesses["C04_perm"] = H_C04_perm
 	vHarnesses["C04_late"] = H_C04_late
+	vHarnesses["C04_views"] = H_C04_views
 }
 
 // H_C04_step (inductive step): arbitrary assigned range [a,b], arbitrary
@@ -252,4 +253,84 @@ func H_C04_openrange() {
 		assert(!ok && !dok, "no checkpoint entry is created for the vBucket just outside the assigned range")
 		assert(len(fx.fc.tracked) == tracked, "the offset tracker is not told about it")
 	}
+}
+
+// H_C04_views: every view of the tracked position agrees with the furthest
+// settled event at all times. Two vBuckets, K withheld events each, an arbitrary
+// acknowledgement order with repetitions across both, and a save at an arbitrary
+// subset of the steps: after each step the maps handed out by GetOffsets() (what
+// the offsets API and the metrics collector read), the consumer's offset tracker
+// and - after a save - the stored document all show, per vBucket, the maximum
+// acknowledged so far; a vBucket nobody acknowledged is neither flagged nor written.
+func H_C04_views() {
+	K, steps := 2, 3
+	if tierThorough() {
+		K, steps = 3, 4
+	}
+	fc := &vfakeConsumer{}
+	fm := vNewFakeMetadata()
+	s := vNewStream(fc, fm)
+	var resume [2]*models.Offset
+	var best [2]uint64
+	var acked, unsaved [2]bool
+	events := make([]*models.Offset, 0, 2*K)
+	for vb := 0; vb < 2; vb++ {
+		resume[vb] = vOffset("resume")
+		best[vb] = resume[vb].SeqNo
+		s.offsets.Store(uint16(vb), resume[vb])
+		for i := 0; i < K; i++ {
+			ev := vOffset("ev")
+			assume(ev.SeqNo > resume[vb].SeqNo)
+			events = append(events, ev)
+			s.listen(models.ListenerArgs{Event: models.DcpMutation{DcpMutation: vMutation(uint16(vb), ev.SeqNo, []byte("k")), Offset: ev}})
+		}
+	}
+	assert(len(fc.consumed) == 2*K, "every document event reached the consumer")
+	for st := 0; st < steps; st++ {
+		i := choose("ack", 2*K)
+		vb := i / K
+		if events[i].SeqNo > best[vb] {
+			unsaved[vb] = true
+		}
+		best[vb] = vMax(best[vb], events[i].SeqNo)
+		acked[vb] = true
+		fc.consumed[i].Ack()
+
+		offs, dirty, anyDirty := s.GetOffsets()
+		for v := 0; v < 2; v++ {
+			cur, ok := offs.Load(uint16(v))
+			assert(ok && cur.SeqNo == best[v], "GetOffsets shows the furthest acknowledged position of every vBucket")
+			d, dok := dirty.Load(uint16(v))
+			if unsaved[v] {
+				assert(dok && d && anyDirty, "a vBucket with unsaved progress is flagged in the view the next save reads")
+			}
+			if !acked[v] {
+				assert(!(dok && d), "a vBucket nobody acknowledged is not flagged")
+				assert(cur == resume[v], "and still shows its resume position")
+			}
+			// the tracker's latest word on this vBucket is the furthest position
+			for t := len(fc.tracked) - 1; t >= 0; t-- {
+				if fc.tracked[t].vbID == uint16(v) {
+					assert(fc.tracked[t].offset.SeqNo == best[v], "the offset tracker's latest position is the furthest acknowledged")
+					break
+				}
+			}
+		}
+		if choose("save", 2) == 1 {
+			s.Save()
+			for v := 0; v < 2; v++ {
+				doc, ok := fm.store[uint16(v)]
+				if !acked[v] {
+					assert(!ok, "no document is written for a vBucket without acknowledged progress")
+					continue
+				}
+				cur, _ := offs.Load(uint16(v))
+				assert(ok && doc.Checkpoint.SeqNo == best[v], "the save writes the furthest acknowledged position")
+				assert(doc.Checkpoint.VbUUID == uint64(cur.VbUUID) && doc.Checkpoint.Snapshot.StartSeqNo == cur.StartSeqNo && doc.Checkpoint.Snapshot.EndSeqNo == cur.EndSeqNo, "with the snapshot and vbUUID of that same event")
+				unsaved[v] = false
+			}
+			cover("saved")
+		}
+	}
+	cover("views-done")
 }
